@@ -49,7 +49,17 @@ func VerifC09_NodeFinalizer() {
 	clk := &stubs.Clock{Frozen: true}
 	clk.Set(start)
 	kc := &stubs.Client{Clock: clk, Faults: map[string]bool{}}
-	if verifrt.Bound("apiFaults", 0, 1) == 1 {
+	// quick: 3 reconciles, provider faults only. thorough: two configurations — 5 reconciles with provider faults only,
+	// and 2 reconciles with node-patch and status-patch faults as well (their product exhausts the path budget)
+	rounds, apiFaults := 3, false
+	if verifrt.Bound("deepConfigs", 0, 1) == 1 {
+		if verifrt.Choice("config", 0, 1) == 0 {
+			rounds = 5
+		} else {
+			rounds, apiFaults = 2, true
+		}
+	}
+	if apiFaults {
 		kc.Faults["patch:Node"], kc.Faults["status-patch"] = true, true
 	}
 	cp := stubs.ManagedProvider()
@@ -115,7 +125,6 @@ func VerifC09_NodeFinalizer() {
 		verifrt.Assert(gone, "the finalizer is removed only after the provider confirms the instance no longer exists")
 	}
 
-	rounds := verifrt.Bound("reconciles", 3, 4)
 	for r := 0; r < rounds; r++ {
 		stored := kc.StoredNode("node-1")
 		if stored == nil {
